@@ -183,7 +183,7 @@ def verify_function(tu, fn_name, contracts, int_mode='bv', num_mode='real', pref
         if dead(s):
             continue
         rv = s.ghost.get('$ret')
-        extra = {'result': view(exe, s, rv, rt)}
+        extra = {'result': view(exe, s, rv, rt)} if not isinstance(rt, TVoid) else {}      # a void function may have a parameter called result
         suffix = '' if len(rets) == 1 else '#%d' % i
         ens = {}
         for cname, src in (con.get('ensures', {}).items() if isinstance(con.get('ensures', {}), dict) else enumerate(con.get('ensures', []))):
